@@ -359,14 +359,14 @@ func init() {
 					}
 					return out
 				}},
-			{Name: "c07-step", Overlay: filesOv("C07/c07_step.go"), Pkg: "files", Entry: "VerifC07Step", Lemma: true,
+			{Name: "c07-step", Overlay: filesOv("C07/c07_step.go"), Pkg: "files", Entry: "VerifC07Step", Lemma: true, OptionalUnsupported: "lazily defined array",
 				Args: func(tier string, l *Loaded) [][]int64 {
 					k := tOf(tier, 3, 4)
 					return [][]int64{{0, k, 0}, {1, k, 0}, {2, k, 0}}
 				}},
-			{Name: "c07-new", Overlay: filesOv("C07/c07_step.go"), Pkg: "files", Entry: "VerifC07New", Lemma: true,
+			{Name: "c07-new", Overlay: filesOv("C07/c07_step.go"), Pkg: "files", Entry: "VerifC07New", Lemma: true, OptionalUnsupported: "lazily defined array",
 				Args: func(tier string, l *Loaded) [][]int64 { return [][]int64{{}} }},
-			{Name: "c07-reader", Overlay: filesOv("C07/c07_step.go"), Pkg: "files", Entry: "VerifC07Reader",
+			{Name: "c07-reader", Overlay: filesOv("C07/c07_step.go"), Pkg: "files", Entry: "VerifC07Reader", OptionalUnsupported: "lazily defined array",
 				Args: func(tier string, l *Loaded) [][]int64 { return [][]int64{{0, 3}, {1, 3}} }},
 			{Name: "c07-run", Overlay: libOverlay("C06/c06.go"), Pkg: "libvore", Entry: "VerifC07Run", PanicOK: false,
 				Args: func(tier string, l *Loaded) [][]int64 {
